@@ -10,7 +10,7 @@ and (except for "init") the test element
    FillRequestSeq with a preceding `x ↦ x+10` / a following `r ↦ r + [99]`).
 Requests:
   {"op":"init",...}                -> {"e":"LenaTypeError"|"LenaValueError"} | {"fill":b,"request":b,"reset":b}
-  {"op":"run",...,"xs":[ints]}     -> {"e":..} | {"r":[[ints]]}
+  {"op":"run",...,"xs":[ints]}     -> {"e":..} | {"r":[[ints]],"spec":[[ints]]}  (spec: block specification)
   {"op":"ops",...,"ops":[int|null]} (null = request) -> {"e":..} | {"t":[[out|null,n_count,len_in,len_out],..]}
   {"op":"split",...,"m":int|null,"xs":[ints]} -> {"e":..} | {"r":[[ints]]} -/
 open Lean Lena.Drv Lena.C16
@@ -81,7 +81,11 @@ def handle (j : Json) : Json :=
       Json.mkObj [("fill", Json.bool c.hasFill), ("request", Json.bool c.hasRequest), ("reset", Json.bool c.hasReset)]
     | some "run" =>
       match parseEl (getD j "el"), intList? (getD j "xs") with
-      | some t, some xs => Json.mkObj [("r", ofOuts (runFR (testEl t) c [] xs).1)]
+      | some t, some xs =>
+        -- "spec": the right-hand side of theorem `run_blocks` (block specification), compared as well
+        Json.mkObj [("r", ofOuts (runFR (testEl t) c [] xs).1),
+          ("spec", ofOuts (specBlocks (blockOf (testEl t) c) (testEl t).reset c.bufsize c.reset c.yor []
+            (chunks c.bufsize xs)))]
       | _, _ => err "bad run args"
     | some "ops" =>
       match parseEl (getD j "el"), parseOps (getD j "ops") with
